@@ -99,6 +99,7 @@ pub fn gen_input(t: &mut Tape, identity: &[String]) -> (Vec<u8>, &'static str, u
             let mut o = GenOpts::default_full();
             o.max_lines = 10;
             o.text.allow_composite = t.chance(1, 8);
+            o.allow_conflict = true; // (merge-conflict regions in combined diffs)
             (gen_case(t, &o).bytes(), "git-diff")
         }
         1 => (gen_plain_case(t, &GenOpts::default_full()).bytes(), "plain-diff"),
@@ -116,6 +117,9 @@ pub fn gen_input(t: &mut Tape, identity: &[String]) -> (Vec<u8>, &'static str, u
 }
 
 impl Prop for C03 {
+    fn hang_is_violation(&self) -> bool {
+        true
+    }
     fn id(&self) -> &'static str {
         "C03"
     }
